@@ -399,7 +399,10 @@ impl World {
         let disk = self.nodes[i].disk.clone();
         disk.log_unavailable_once.set(false);
         disk.fetch_ctx.set(None);
-        let cfg = make_config(self.cfg(i), disk.app.applied);
+        let mut cfg = make_config(self.cfg(i), disk.app.applied);
+        if self.nodes[i].created && self.cfg(i).pre_vote_off_on_restart {
+            cfg.pre_vote = false;
+        }
         let r = guarded(|| RawNode::new(&cfg, disk.clone(), &logger()));
         let mut rn = match r {
             Ok(Ok(rn)) => rn,
